@@ -52,7 +52,7 @@ class SortedMap(MutableMapping[K, T], Generic[K, T]):
     def __getitem__(self, key: K) -> T:
         insert_index, already_in = self.insertions_index(key)
         if not already_in:
-            raise KeyError(f"Key {key} is not in the map.")
+            raise KeyError(key)
 
         return self.values_storage[insert_index]
 
@@ -70,7 +70,7 @@ class SortedMap(MutableMapping[K, T], Generic[K, T]):
     def __delitem__(self, key: K) -> None:
         insert_index, already_in = self.insertions_index(key)
         if not already_in:
-            raise KeyError(f"Key {key} is not in the map.")
+            raise KeyError(key)
 
         del self.keys_storage[insert_index]
         del self.values_storage[insert_index]
@@ -92,7 +92,7 @@ class SortedMap(MutableMapping[K, T], Generic[K, T]):
         try:
             searched_i = bisect.bisect_left(self.keys_storage, x)
         except TypeError:
-            raise KeyError(f"Key {x} is not in the map.")
+            raise KeyError(x)
 
         try:
             on_index = self.keys_storage[searched_i]
